@@ -6,12 +6,23 @@
 // exit 0: every rule instance holds (known findings are printed);
 // exit 1 + "VIOLATION property=.. replay=..": an instance fails;
 // exit 2: the checker could not decide (load error, lost anchor, floor).
+//
+// The thorough tier evaluates the same rules on the current tree and then
+// validates the checker itself against the kept seeded changes of the
+// property (/verif/seeded/*/patch.diff applied in memory through a
+// go/packages overlay: each must be reported) and against the recorded
+// behaviour-preserving variants (/verif/seeded/_benign: each must be silent).
+// A seed that is no longer reported, or a benign variant that is, makes the run
+// exit 2 (the checker is broken, not the code).
 package main
 
 import (
+	"encoding/json"
 	"flag"
 	"fmt"
 	"os"
+	"path/filepath"
+	"runtime"
 	"runtime/debug"
 	"sort"
 	"strings"
@@ -23,14 +34,16 @@ import (
 
 func main() {
 	prop := flag.String("prop", "", "property id (C01..C20), comma separated, or 'all'")
-	tier := flag.String("tier", "quick", "quick | thorough")
-	verif := flag.String("verif", "/verif", "verification directory (evidence, known findings)")
-	replay := flag.String("replay", "", "violations file to re-evaluate (same rules, current tree)")
+	tier := flag.String("tier", "", "quick | thorough (default: $VERIF_TIER or quick)")
+	verif := flag.String("verif", "/verif", "verification directory (evidence, known findings, seeds)")
+	replay := flag.String("replay", "", "violations file: re-evaluate the property and report only the recorded instance keys")
 	flag.Parse()
-	if t := os.Getenv("VERIF_TIER"); t != "" && *tier == "" {
-		*tier = t
+	if *tier == "" {
+		*tier = os.Getenv("VERIF_TIER")
 	}
-	_ = replay
+	if *tier != "thorough" {
+		*tier = "quick"
+	}
 	ids := strings.Split(*prop, ",")
 	if *prop == "all" {
 		ids = props.IDs()
@@ -47,7 +60,19 @@ func main() {
 		}
 	}
 	debug.SetGCPercent(400)
-	prog, err := an.Load(nil, "")
+	prog := load(nil)
+	worst := 0
+	for _, id := range ids {
+		code := runOne(id, *tier, prog, *verif, *replay)
+		if code == 1 || (code == 2 && worst == 0) {
+			worst = code
+		}
+	}
+	os.Exit(worst)
+}
+
+func load(overlay map[string][]byte) *an.Prog {
+	prog, err := an.Load(overlay, "")
 	if err != nil {
 		fmt.Fprintf(os.Stderr, "CHECKER-ERROR load: %v\n", err)
 		os.Exit(2)
@@ -56,17 +81,10 @@ func main() {
 		fmt.Fprintf(os.Stderr, "CHECKER-ERROR load: only %d module packages loaded\n", len(prog.ModulePkgs()))
 		os.Exit(2)
 	}
-	worst := 0
-	for _, id := range ids {
-		code := runOne(id, *tier, prog, *verif)
-		if code == 1 || (code == 2 && worst == 0) {
-			worst = code
-		}
-	}
-	os.Exit(worst)
+	return prog
 }
 
-func runOne(id, tier string, prog *an.Prog, verif string) (code int) {
+func runOne(id, tier string, prog *an.Prog, verif, replay string) (code int) {
 	c := rep.New(id, tier, prog)
 	defer func() {
 		if r := recover(); r != nil {
@@ -75,5 +93,149 @@ func runOne(id, tier string, prog *an.Prog, verif string) (code int) {
 		}
 	}()
 	props.Get(id).Run(c)
+	if replay != "" {
+		keep := replayKeys(replay)
+		var obs []rep.Ob
+		for _, o := range c.Obs {
+			if keep[o.Key] || o.OK {
+				obs = append(obs, o)
+			}
+		}
+		c.Obs = obs
+		c.Note("replay of %s: %d recorded instance keys re-evaluated on the current tree", replay, len(keep))
+	}
+	if tier == "thorough" && an.RepoDir() == "/repo" {
+		selfValidate(c, id, verif)
+	}
 	return c.Finish(verif)
+}
+
+func replayKeys(path string) map[string]bool {
+	out := map[string]bool{}
+	b, err := os.ReadFile(path)
+	if err != nil {
+		fmt.Fprintf(os.Stderr, "CHECKER-ERROR replay: %v\n", err)
+		os.Exit(2)
+	}
+	var obs []rep.Ob
+	if err := json.Unmarshal(b, &obs); err != nil {
+		fmt.Fprintf(os.Stderr, "CHECKER-ERROR replay: %v\n", err)
+		os.Exit(2)
+	}
+	for _, o := range obs {
+		out[o.Key] = true
+	}
+	return out
+}
+
+// selfValidate runs the property's rules on in-memory variants of the tree.
+func selfValidate(c *rep.Ctx, id, verif string) {
+	type meta struct {
+		Property string   `json:"property"`
+		Detected string   `json:"detected_by_checks"`
+		Props    []string `json:"props"`
+	}
+	readMeta := func(dir string) *meta {
+		b, err := os.ReadFile(filepath.Join(dir, "meta.json"))
+		if err != nil {
+			return nil
+		}
+		var m meta
+		if json.Unmarshal(b, &m) != nil {
+			return nil
+		}
+		return &m
+	}
+	// baseline failing keys (known findings etc.) so that only NEW reports count
+	base := map[string]bool{}
+	for _, o := range c.Obs {
+		if !o.OK {
+			base[o.Key] = true
+		}
+	}
+	variant := func(dir string) (newFails []string, err error) {
+		ov, err := an.OverlayFromPatch(filepath.Join(dir, "patch.diff"))
+		if err != nil {
+			return nil, err
+		}
+		prog2, err := an.Load(ov, "")
+		if err != nil {
+			return nil, err
+		}
+		c2 := rep.New(id, "thorough", prog2)
+		func() {
+			defer func() {
+				if r := recover(); r != nil {
+					err = fmt.Errorf("rules panicked on the variant: %v", r)
+				}
+			}()
+			props.Get(id).Run(c2)
+		}()
+		for _, o := range c2.Obs {
+			if !o.OK && !base[o.Key] {
+				newFails = append(newFails, o.Key)
+			}
+		}
+		if len(c2.Undecided) > 0 && len(newFails) == 0 {
+			newFails = append(newFails, "UNDECIDED:"+c2.Undecided[0])
+		}
+		prog2 = nil
+		runtime.GC()
+		return newFails, err
+	}
+	dirs, _ := filepath.Glob(filepath.Join(verif, "seeded", "C*"))
+	sort.Strings(dirs)
+	nSeeds := 0
+	for _, d := range dirs {
+		m := readMeta(d)
+		if m == nil || !strings.Contains(" "+m.Detected+" ", " "+id+" ") {
+			continue
+		}
+		nSeeds++
+		name := filepath.Base(d)
+		fails, err := variant(d)
+		switch {
+		case err != nil:
+			c.Note("selftest seed %s skipped: %v (the tree moved away from the seed's context)", name, err)
+		case len(fails) == 0:
+			c.Undecide("selftest", "seed|"+name, "the seeded change "+name+" (breaks "+m.Property+") is no longer reported by this property's rules: checker regression")
+		default:
+			c.Check("selftest", "seed|"+name, 0, true, "seeded change applied in memory is reported ("+strings.Join(firstN(fails, 3), ", ")+")")
+		}
+	}
+	bdirs, _ := filepath.Glob(filepath.Join(verif, "seeded", "_benign", "*"))
+	sort.Strings(bdirs)
+	for _, d := range bdirs {
+		m := readMeta(d)
+		if m == nil {
+			continue
+		}
+		mine := false
+		for _, p := range m.Props {
+			if p == id {
+				mine = true
+			}
+		}
+		if !mine {
+			continue
+		}
+		name := filepath.Base(d)
+		fails, err := variant(d)
+		switch {
+		case err != nil:
+			c.Note("selftest benign variant %s skipped: %v", name, err)
+		case len(fails) > 0:
+			c.Undecide("selftest", "benign|"+name, "behaviour-preserving variant "+name+" is reported ("+strings.Join(firstN(fails, 3), ", ")+"): false-alarm regression of the checker")
+		default:
+			c.Check("selftest", "benign|"+name, 0, true, "behaviour-preserving variant applied in memory stays silent")
+		}
+	}
+	c.Note("thorough tier: %d seeded changes for this property re-checked through in-memory overlays", nSeeds)
+}
+
+func firstN(s []string, n int) []string {
+	if len(s) > n {
+		return s[:n]
+	}
+	return s
 }
